@@ -4,11 +4,12 @@ from .. import lbgen
 from . import c02
 
 ID = "C06"
-MODULES = ["Helios.Props.C06", "Helios.Props.Facts"]
+MODULES = ["Helios.Props.C06", "Helios.Props.Facts", "Helios.Props.Code"]
 THEOREMS = ["Helios.LB.jump_range'", "Helios.LB.jump_monotone'", "Helios.LB.jump_no_overflow",
             "Helios.LB.affinity", "Helios.LB.hash_stateless", "Helios.LB.key_ignores_port",
             "Helios.LB.choice_valid", "Helios.LB.append_minimal",
-            "Helios.Facts.jump_mul_eq", "Helios.Facts.extraction_clean"]
+            "Helios.Facts.jump_mul_eq", "Helios.Facts.extraction_clean",
+            "Helios.CodeTie.jumpHash_refines", "Helios.CodeTie.translation_clean"]
 
 KEYS = ["10.0.0.%d" % i for i in range(1, 40)] + ["2001:db8::%x" % i for i in range(1, 12)] + [
     "junk", "", " ", "a,b", ",", "10.0.0.1, 10.0.0.2", " x", "x" * 200, "::1", "[::1]", "1.2.3.4:5", "%", "+"]
